@@ -1887,6 +1887,7 @@ class QueryRetrieveServiceClass(ServiceClass):
                 if not isinstance(dataset, Dataset):
                     LOGGER.error("Received invalid dataset from callback")
                     # Count as a sub-operation failure
+                    store_results[0] -= 1
                     store_results[1] += 1
                     failed_instances.append("")
                     rsp.Identifier = None
@@ -2330,6 +2331,7 @@ class QueryRetrieveServiceClass(ServiceClass):
                 if not isinstance(dataset, Dataset):
                     LOGGER.error("Received invalid dataset from callback")
                     # Count as a sub-operation failure
+                    store_results[0] -= 1
                     store_results[1] += 1
                     failed_instances.append("")
                     rsp.Identifier = None
